@@ -534,6 +534,11 @@ func (e *executor) executeMinRow(ctx context.Context, index string, c *pql.Call,
 		prevp, _ := prev.(Pair)
 		vp, _ := v.(Pair)
 		if prevp.Count > 0 && vp.Count > 0 {
+			if prevp.ID == vp.ID {
+				// the same row is the minimum in several shards: total its count
+				prevp.Count += vp.Count
+				return prevp
+			}
 			if prevp.ID < vp.ID {
 				return prevp
 			}
@@ -568,6 +573,11 @@ func (e *executor) executeMaxRow(ctx context.Context, index string, c *pql.Call,
 		prevp, _ := prev.(Pair)
 		vp, _ := v.(Pair)
 		if prevp.Count > 0 && vp.Count > 0 {
+			if prevp.ID == vp.ID {
+				// the same row is the maximum in several shards: total its count
+				prevp.Count += vp.Count
+				return prevp
+			}
 			if prevp.ID > vp.ID {
 				return prevp
 			}
@@ -3040,6 +3050,10 @@ func (vc *ValCount) smaller(other ValCount) ValCount {
 	if vc.Count == 0 || (other.Val < vc.Val && other.Count > 0) {
 		return other
 	}
+	if other.Count > 0 && other.Val == vc.Val {
+		// the same minimum in both: the count is the total
+		return ValCount{Val: vc.Val, Count: vc.Count + other.Count}
+	}
 	return ValCount{
 		Val:   vc.Val,
 		Count: vc.Count,
@@ -3050,6 +3064,10 @@ func (vc *ValCount) smaller(other ValCount) ValCount {
 func (vc *ValCount) larger(other ValCount) ValCount {
 	if vc.Count == 0 || (other.Val > vc.Val && other.Count > 0) {
 		return other
+	}
+	if other.Count > 0 && other.Val == vc.Val {
+		// the same maximum in both: the count is the total
+		return ValCount{Val: vc.Val, Count: vc.Count + other.Count}
 	}
 	return ValCount{
 		Val:   vc.Val,
